@@ -227,6 +227,9 @@ def _sum_subzone_targets(zone: Zone) -> Zone:
             "target_values": target_values,
             "hot_utilities": hot_utilities,
             "cold_utilities": cold_utilities,
+            # a sum of zonal targets has no pinch of its own
+            "hot_pinch": None,
+            "cold_pinch": None,
         },
     )
     return zone
